@@ -31,7 +31,7 @@ VALS = [1, "k0", "k2", ("t", 1), ["k1"], None]
 def RULE(tier):
     return (
         f"(a) all DAGs <= {NMAX[tier]} nodes (plain + <=1 special kind) x (no failure | every single failing task) x requests (full list, each single key) x entries "
-        f"{ENTRIES} x configs {CONFIGS} x EVERY completion order, with one Profiler active; then a second get (sub-request) under the SAME profiler. Oracle: one "
+        f"{ENTRIES} x configs {CONFIGS} x EVERY completion order, with one Profiler active (alternately passed as callbacks= and entered as a context manager, i.e. through the global callback registry); then a second get (sub-request) under the SAME profiler. Oracle: one "
         "profiler entry per task that reached posttask (keys as a multiset), start<=end, failing runs keep completed tasks' entries. "
         f"(b) all histories of <= {NGETS[tier]} get calls under one Cache over 3 graph shapes on keys k0,k1,k2 x values in {VALS!r} per task (key-like strings, "
         "task-like tuples, lists of keys) x every request subset; oracle: each get returns the cache-free reference value. non-trivial: (a) >= 2 pending, (b) history of >= 2 gets sharing a key."
@@ -66,18 +66,49 @@ def run_prof_case(case, ctx):
     nexec = 0
     maxpend = 0
 
+    use_context = (mask + n + nw) % 2 == 1  # half of the cases activate the profiler as a context manager (global callbacks) instead of callbacks=
+
+    def expected_keys(K, status, log, rec):
+        """ground truth that does NOT go through the callback machinery when the call succeeded: every needed non-literal node
+        finished exactly once; for a failing call the recorder's posttask events are used"""
+        if status == "ok":
+            need = needed(n, mask, flat(req_form))
+            return [repr(K[i]) for i in need if kinds[i] != "d"]
+        return [repr(k) for kind, k, _ in rec.events if kind == "post"]
+
+    def one_get(prof, dsk, keys, ch):
+        rec = sched.Recorder()
+        if use_context:
+            from dask.callbacks import add_callbacks
+
+            with add_callbacks(rec.tuple):
+                status, value, ex, h = run_entry(entry, dsk, keys, nw, cs, ch, callbacks=None)
+        else:
+            status, value, ex, h = run_entry(entry, dsk, keys, nw, cs, ch, callbacks=[prof._callback, rec.tuple])
+        return status, ex, rec
+
     def run(ch):
         dsk, K = build_graph(n, mask, kinds, style, rev, dict(fail))
         prof = Profiler()
         prof.clear()
-        rec = sched.Recorder()
-        status, value, ex, h = run_entry(entry, dsk, req_keys(req_form, K), nw, cs, ch, callbacks=[prof._callback, rec.tuple])
-        posts = [repr(k) for kind, k, _ in rec.events if kind == "post"]
-        # a second get under the same profiler: the first requested key alone (shares keys with the first call)
-        dsk2, K2 = build_graph(n, mask, kinds, style, rev, dict(fail))
-        rec2 = sched.Recorder()
-        status2, value2, ex2, h2 = run_entry(entry, dsk2, K2[flat(req_form)[0]], nw, cs, Chooser(()), callbacks=[prof._callback, rec2.tuple])
-        posts += [repr(k) for kind, k, _ in rec2.events if kind == "post"]
+        if use_context:
+            prof.__enter__()
+        try:
+            status, ex, rec = one_get(prof, dsk, req_keys(req_form, K), ch)
+            posts = expected_keys(K, status, list(sched.LOG), rec)
+            # a second get under the same (still open) profiler: the first requested key alone (shares keys with the first call)
+            dsk2, K2 = build_graph(n, mask, kinds, style, rev, dict(fail))
+            first = flat(req_form)[0]
+            saved = (req_form,)
+            status2, ex2, rec2 = one_get(prof, dsk2, K2[first], Chooser(()))
+            if status2 == "ok":
+                need2 = needed(n, mask, [first])
+                posts += [repr(K2[i]) for i in need2 if kinds[i] != "d"]
+            else:
+                posts += [repr(k) for kind, k, _ in rec2.events if kind == "post"]
+        finally:
+            if use_context:
+                prof.__exit__(None, None, None)
         return status, prof, posts, ex.max_pending, K
 
     for ch, (status, prof, posts, mp, K) in explore(run):
